@@ -3,7 +3,7 @@
 #  (1) demo passes on the unchanged tree, (2) change applies, builds, the repository's test suite passes,
 #  (3) demo fails with the change.   usage: tools/confirm_seed.sh <ID> <mN>
 ID=$1; N=$2
-SRC=/tmp/seedwt/$ID/out
+SRC=${SEEDROOT:-/tmp/seedwt}/$ID/out
 WT=/tmp/confirmwt/$ID-$N
 rm -rf $WT; mkdir -p /tmp/confirmwt
 git -C /repo worktree add -q --detach $WT HEAD || exit 9
